@@ -161,6 +161,9 @@ def replay(ob):
         for li, lj in itertools.combinations(L[:4], 2):
             extras.append([(li, 29, P1), (lj, 47, P2)])
             extras.append([(li, 47, P1), (lj, 29, P2)])
+        INFO0, WY0, NZ0 = tabvc.load_tables()
+        for lf in [l for l in L[:-1] if WY0[sg][l].get("variables")][:3]:
+            extras.append([(lf, 29, P1), (lf, 29, P2)])
         for extra in extras:
             try:
                 at = tr.pinned_probe(sg, extra, npin=1)
